@@ -542,6 +542,9 @@ class CopyEqualsByKind(Contract):
             for target in ("same", "other"):
                 yield {"kind": kind, "target": target}
             yield {"kind": kind, "target": "same", "clear_cache": True}
+        # a property group of a DC survey that lists the survey's own "A-B Cell ID" channel next to ordinary data
+        for target in ("same", "other"):
+            yield {"kind": "dcip", "target": target, "grouped_ab": True}
 
     @classmethod
     def _describe(cls, ent):
@@ -577,9 +580,18 @@ class CopyEqualsByKind(Contract):
                     setattr(obj, flag, not getattr(obj, flag))
                 if case["kind"] == "drillhole":
                     obj.cost, obj.planning, obj.end_of_hole = 1234.5, "Ongoing", 150.0  # the hole goes on below its last survey station
+                if case.get("grouped_ab"):
+                    obj.add_data_to_group([obj.get_data("v")[0], obj.ab_cell_id], "grp")
+                groups_of = lambda ent: sorted((g.name, sorted(ent.get_entity(u)[0].name for u in (g.properties or []))) for g in (ent.property_groups or []))
                 before = self._describe(obj)
-                new = obj.copy(parent=other if case["target"] == "other" else None, **({"clear_cache": True} if case.get("clear_cache") else {}))
+                groups_before = groups_of(obj)
+                try:
+                    new = obj.copy(parent=other if case["target"] == "other" else None, **({"clear_cache": True} if case.get("clear_cache") else {}))
+                except KeyError as exc:
+                    return f"a {case['kind']} could not be copied: KeyError {exc} ({case})"
                 got = self._describe(new)
+                if groups_of(new) != groups_before:
+                    return f"the copy of a {case['kind']} has the property groups {groups_of(new)}, its source {groups_before} ({case})"
                 for k in before:
                     if k in ("array:metadata", "array:extent") and case["kind"] in ("tem", "dcip", "tipper"):
                         continue  # a linked copy records its own partner (C20's subject); compared only for "the source is unchanged"
